@@ -149,7 +149,8 @@ def mod_summaries(prog: Program) -> Dict[str, Set[str]]:
 
 def _propagate(fn: ast.FunctionDef, prog: Optional[Program] = None) -> None:
     mods = mod_summaries(prog) if prog is not None else None
-    skip: Set[str] = set()
+    # names declared global / nonlocal are not locals: their assignments are effects
+    skip: Set[str] = {n for g in ast.walk(fn) if isinstance(g, (ast.Global, ast.Nonlocal)) for n in g.names}
     for _ in range(40):
         nodes = list(ast.walk(fn))
         if not any(isinstance(n, ast.Assign) and len(n.targets) == 1 and isinstance(n.targets[0], ast.Name) and n.targets[0].id not in skip
@@ -332,7 +333,7 @@ def _helper_kind(fn: ast.FunctionDef) -> Optional[str]:
     'stmts' : no return at all: inlinable as a statement anywhere;
     'value' : straight-line prefix followed by one final `return <expr>` and no other return: inlinable inside any simple statement.
     """
-    body = body_without_docstring(fn)
+    body = flat(body_without_docstring(fn))
     if not body or len(body) > 40:
         return None
     if fn.args.vararg or fn.args.kwarg or fn.decorator_list:
@@ -374,7 +375,7 @@ def _instantiate(h: ast.FunctionDef, call: ast.Call, host: ast.FunctionDef):
         return None
     _COUNTER[0] += 1
     tag = f"@{h.name}#{_COUNTER[0]}"
-    hb = copy.deepcopy(body_without_docstring(h))
+    hb = copy.deepcopy(flat(body_without_docstring(h)))
     mod = ast.Module(body=hb, type_ignores=[])
     local_names = set(_stores(mod)) | set(ps)
     for x in ast.walk(mod):
@@ -483,6 +484,67 @@ def _inline_helpers(prog: Program, cls: ClassInfo, fn: ast.FunctionDef, exclude:
         _inline_helpers(prog, cls, fn, exclude, depth + 1)
 
 
+def _merge_adjacent(stmts: List[ast.stmt], counts: Dict[str, int], loads: Dict[str, int]) -> List[ast.stmt]:
+    """`x = E; return x` -> `return E` and `c = E; if c: ..` -> `if E: ..` for a local that is assigned once and read once: the value is
+    evaluated at the same point either way, whatever E does"""
+    out: List[ast.stmt] = []
+    i = 0
+    while i < len(stmts):
+        s = stmts[i]
+        for fld in ("body", "orelse", "finalbody"):
+            b = getattr(s, fld, None)
+            if isinstance(b, list) and b and isinstance(b[0], ast.stmt):
+                setattr(s, fld, _merge_adjacent(b, counts, loads))
+        if isinstance(s, ast.Try):
+            for h in s.handlers:
+                h.body = _merge_adjacent(h.body, counts, loads)
+        nxt = stmts[i + 1] if i + 1 < len(stmts) else None
+        if isinstance(s, ast.Assign) and len(s.targets) == 1 and isinstance(s.targets[0], ast.Name) and nxt is not None:
+            name = s.targets[0].id
+            if counts.get(name, 0) == 1 and loads.get(name, 0) == 1:
+                if isinstance(nxt, ast.Return) and isinstance(nxt.value, ast.Name) and nxt.value.id == name:
+                    out.append(ast.copy_location(ast.Return(value=s.value), s))
+                    i += 2
+                    continue
+                if isinstance(nxt, ast.If) and isinstance(nxt.test, ast.Name) and nxt.test.id == name:
+                    nxt.test = s.value
+                    i += 1
+                    continue
+        out.append(s)
+        i += 1
+    return out
+
+
+def normalise_function(fn: ast.FunctionDef, prog: Optional[Program] = None) -> None:
+    """in-place normal form of one function (no helper inlining): see the module docstring, steps 2-5"""
+    fn.body = _fix_ifs(fn.body)
+    counts = _stores(fn)
+    for g in ast.walk(fn):
+        if isinstance(g, (ast.Global, ast.Nonlocal)):
+            for n in g.names:
+                counts[n] = counts.get(n, 0) + 2   # never a mergeable local
+    loads: Dict[str, int] = {}
+    for x in ast.walk(fn):
+        if isinstance(x, ast.Name) and isinstance(x.ctx, ast.Load):
+            loads[x.id] = loads.get(x.id, 0) + 1
+    fn.body = _merge_adjacent(fn.body, counts, loads)
+    _propagate(fn, prog)
+    fn.body = _fix_ifs(fn.body)
+
+
+def normal_form_module(tree: ast.Module, prog: Optional[Program] = None) -> None:
+    """
+    Front-end normal form: every function of a module is rewritten in place when the module is parsed (guard clauses nested, negated
+    tests flipped, `x = x + y` -> `x += y`, single-assignment pure locals propagated), so that every rule -- also those that walk raw
+    class bodies -- sees one layout for the many ways the same routine can be written.  Line numbers are kept.
+    """
+    fns = [n for n in ast.walk(tree) if isinstance(n, (ast.FunctionDef, ast.AsyncFunctionDef))]
+    for fn in reversed(fns):
+        normalise_function(fn, prog)
+        fn.__dict__["_jfsa_normal"] = True
+    ast.fix_missing_locations(tree)
+
+
 def flat(stmts: List[ast.stmt]) -> List[ast.stmt]:
     """the guard-clause reading of a canonical block: `if c: <leaves> else: rest` is listed as `if c: <leaves>` followed by rest"""
     out: List[ast.stmt] = []
@@ -534,9 +596,9 @@ def canon(prog: Program, cls: Optional[ClassInfo], fn: ast.FunctionDef, exclude:
         fn.__dict__["_jfsa_canon"] = saved
     if helpers and cls is not None:
         _inline_helpers(prog, cls, f, set(exclude))
-    f.body = _fix_ifs(f.body)
     if locals_:
-        _propagate(f, prog)
+        normalise_function(f, prog)
+    else:
         f.body = _fix_ifs(f.body)
     ast.fix_missing_locations(f)
     cache[key] = f
